@@ -629,3 +629,10 @@ func init() {
 		mutant{Name: "method-depth-compared-with-the-path-length", Prop: "C05", File: "interp/cfg.go", Old: "\t\t\t\t\t\tif d >= 0 && d < len(ti)-1 {\n\t\t\t\t\t\t\tgoto tryMethods\n\t\t\t\t\t\t}\n\t\t\t\t\t\tif d == len(ti)-1 {\n", New: "\t\t\t\t\t\tif d >= 0 && d < len(ti) {\n\t\t\t\t\t\t\tgoto tryMethods\n\t\t\t\t\t\t}\n\t\t\t\t\t\tif d == len(ti) {\n", Rule: "R05.22", Key: "cfg/selector/method-vs-field-depth#1/same-unit"},
 	)
 }
+
+func init() {
+	addMutants(
+		// D143 reverted
+		mutant{Name: "float-variable-divided-by-zero-rejected", Prop: "C02", File: "interp/typecheck.go", Old: "\t\tif zeroConst(c1) && (c0.rval.IsValid() || c0.typ != nil && isInt(c0.typ.TypeOf())) {\n", New: "\t\tif zeroConst(c1) {\n", Rule: "R02.22", Key: "typecheck.binaryExpr/case:aQuo/zero-divisor#1/only-for-constant-or-integer-dividends"},
+	)
+}
